@@ -8,6 +8,12 @@ pub mod error;
 pub mod host;
 pub mod zx;
 
+/// Verification hook: exposes the crate-private tape player
+#[cfg(rustzx_verif)]
+pub mod verif {
+    pub use crate::zx::tape::{Tap, TapeImpl};
+}
+
 pub use emulator::{poke, EmulationInfo, EmulationStopReason, Emulator};
 pub use settings::RustzxSettings;
 pub use utils::EmulationMode;
